@@ -727,6 +727,8 @@ func init() {
 		l.p("def shutdownSyncsEveryJournal : Bool := %s", leanBool(syncUncond && visitsAll))
 		l.p("/-- which callers of `partition.Service.Write` hold a per-partition write lock while they append and announce their records: 2 = all (an unconditional `<local mutex>.Lock()` before the journal write), 1 = only those that publish a write event (`if !noEvent { … Lock() }`: pipe workers are not serialised), 0 = none -/")
 		l.p("def writeLockScope : Nat := %d", c01WriteLockScope())
+		l.p("/-- `model.LogEventIterator.Get` keeps no decoded event across calls: the field its early return tests (`if lei.st == 1 { return lei.le … }`) is never assigned by `Get` — or `SetBackward` resets it. (A held cursor is repositioned underneath the LogEventIterator: cursor `ApplyState` -> journal iterator `SetPos`; a memoised event would be served for the new position.) -/")
+		l.p("def leiKeepsNoEventAcrossCalls : Bool := %s", leanBool(c01LeiKeepsNoEvent()))
 		qAny, qCopy := c01QueryCacheFacts()
 		l.p("/-- both query loops (api/rpc ServerQuerier.query, pkg/backend Querier.Query) refresh the printed fields whenever the event's fields differ from the cached value: the condition is exactly `<ev>.Fields != V` (false: further conjuncts, e.g. `len(<ev>.Fields) > 0 &&`, make the refresh rarer) -/")
 		l.p("def queryCacheRefreshOnAnyDifference : Bool := %s", leanBool(qAny))
